@@ -59,8 +59,8 @@ def run_marg(shard, ctx):
             tag = ("c05", kind, D, R)
             Sig = objs.spd_batch(D, R, vi, seed, tag, diag=diag)
             mu = objs.vec_batch(D, R, vi, seed, tag)
-            which = ("fresh", "sliced_neg", "updated", "Sigma+Lambda", "queried") if (vi == 0 and D <= 3) else ("fresh",)
-            for prep, mkp in objs.pdf_variants(kind, Sig, mu, which=which):
+            which = ("fresh", "sliced_neg", "updated", "Sigma+Lambda", "queried", "conditioned", "prod_linear", "prod_constant") if (vi == 0 and D <= 3) else ("fresh",)
+            for prep, mkp, mu_e, Sig_e in objs.pdf_variants(kind, Sig, mu, which=which):
                 with ctx.guard("prepare." + prep, dict(prep=prep)) as g:
                     p = mkp()
                     # identified quadratic of the joint's evaluated function
@@ -69,7 +69,7 @@ def run_marg(shard, ctx):
                     ident = [rm.identify_quadratic(vals[r], D) for r in range(R)]
                 if not g.ok:
                     continue
-                marg_on(ctx, shard, tier, p, ident, kind, D, R, vi, mu, Sig, prep)
+                marg_on(ctx, shard, tier, p, ident, kind, D, R, vi, mu_e, Sig_e, prep)
 
 
 def marg_on(ctx, shard, tier, p, ident, kind, D, R, vi, mu, Sig, prep):
